@@ -100,9 +100,13 @@ def run(ctx):
             m = re.search(r"impl str>::(split_once|splitn|split|rsplit_once|rsplit|split_terminator)$", c)
             if m and len(t["args"]) >= 2:
                 pat = du.val_operand(t["args"][-1])
-                ops.append((m.group(1), pat[1] if pat[0] == "const" else None, pat[2] if pat[0] == "const" else None, t["span"]["line"]))
-        good = [o for o in ops if o[0] == "split_once" and o[1] == sep]
-        bad = [o for o in ops if o[0] in ("split", "rsplit", "rsplit_once", "split_terminator") or (o[0] == "split_once" and o[1] != sep)]
+                limit = None
+                if m.group(1) == "splitn" and len(t["args"]) == 3:
+                    lv = du.val_operand(t["args"][1])
+                    limit = lv[1] if lv[0] == "const" else None
+                ops.append((m.group(1) + ("(%s)" % limit if m.group(1) == "splitn" else ""), pat[1] if pat[0] == "const" else None, pat[2] if pat[0] == "const" else None, t["span"]["line"]))
+        good = [o for o in ops if o[0] in ("split_once", "splitn(2)") and o[1] == sep]
+        bad = [o for o in ops if o[0] in ("split", "rsplit", "rsplit_once", "split_terminator") or (o[0].startswith("splitn") and o[0] != "splitn(2)") or (o[0] in ("split_once", "splitn(2)") and o[1] != sep)]
         ok = bool(good) and not bad
         r2.instance({"reader": name, "operations": [(o[0], o[1]) for o in ops]}, ok)
         if not ok:
